@@ -30,7 +30,7 @@ Record info := mkInfo { i_lts : Z; i_key : N; i_bsize : N; i_asize : N; i_brecs 
    still had at that moment are kept so that "dropped only when empty" is a statement, not a convention *)
 Inductive slot := Kept (p : part) | Dropped (p : part) (left : list chunk).
 
-Definition code_incl : bool := true.   (* partition.go:606  sc[idx].MaxTs <= tp.OldestTs *)
+Definition code_incl : bool := false.   (* partition.go:606  sc[idx].MaxTs < tp.OldestTs  (was <= before the fix 01dd7d2) *)
 
 (* uint64 subtraction *)
 Definition two64 : N := 18446744073709551616.
@@ -172,7 +172,7 @@ Fixpoint glob (incl dry : bool) (maxdb : N) (infos : list info) (ts : N) (sl : l
                          else set_slot (i_key ti) (if deletable p cks' then Dropped p cks' else Kept (set_chunks p cks')) sl in
               if deleted then
                 let ti' := mkInfo (i_lts ti) (i_key ti) (i_bsize ti) 0 (i_brecs ti) 0
-                                  (i_chunks ti + N.of_nat (length cks)) true in
+                                  (i_chunks ti + N.of_nat (length (if dry && Nat.leb (N.to_nat (i_chunks ti)) (length cks) then skipn (N.to_nat (i_chunks ti)) cks else cks))) true in
                 let '(r, sl') := glob incl dry maxdb tl (usub ts (i_asize ti)) sl1 in (ti' :: r, sl')
               else
                 let '(r, sl') := glob incl dry maxdb tl ts sl1 in (ti :: r, sl')
